@@ -457,24 +457,74 @@ theorem ensureCache_ok {s s1 : State} {c : Cache} (h : CacheOK s) (he : ensureCa
       exact ⟨hc0, rfl, rfl⟩
     · simp at he
 
-theorem scaleParameter_presOK (hm : Gen.invalidates .update_parameter = true) (n f) :
-    PresOK (scaleParameter n f) := by
-  intro s h
-  have h0 := inval_cacheOK .scale_parameter h
-  unfold scaleParameter
-  simp only
+theorem scaledValue_cacheOK (n f) {s : State} (h : CacheOK s) : CacheOK (scaledValue n f s).1 := by
+  unfold scaledValue
   split
-  · simpa [fail] using h0
-  · exact Or.inl (updateParameter_none hm _ _ _)
-  · have h1 := ensureCache_cacheOK h0
+  · exact h
+  · exact h
+  · have h1 := ensureCache_cacheOK h
     split
     · rename_i s1 e heq
       rw [heq] at h1; exact h1
     · rename_i s1 c heq
       rw [heq] at h1
+      split <;> exact h1
+
+theorem scaledValues_cacheOK (l : List (Name × Rat)) : ∀ {s : State}, CacheOK s → CacheOK (scaledValues l s).1 := by
+  induction l with
+  | nil => intro s h; exact h
+  | cons a rest ih =>
+    intro s h
+    obtain ⟨n, f⟩ := a
+    have h1 := scaledValue_cacheOK n f h
+    simp only [scaledValues]
+    split
+    · rename_i s1 e heq; rw [heq] at h1; exact h1
+    · rename_i s1 v heq
+      rw [heq] at h1
+      have h2 := ih h1
       split
-      · simpa [fail] using h1
-      · exact Or.inl (updateParameter_none hm _ _ _)
+      · rename_i s2 e heq2; rw [heq2] at h2; exact h2
+      · rename_i s2 vs heq2; rw [heq2] at h2; exact h2
+
+theorem scaleParameter_presOK (hm : Gen.invalidates .update_parameter = true) (n f) :
+    PresOK (scaleParameter n f) := by
+  intro s h
+  have h0 := scaledValue_cacheOK n f (inval_cacheOK .scale_parameter h)
+  unfold scaleParameter
+  simp only
+  split
+  · rename_i s1 e heq; rw [heq] at h0; exact h0
+  · exact Or.inl (updateParameter_none hm _ _ _)
+
+theorem pluralOp_presOK {α} (m chk) (f : α → State → State × Res) (hf : ∀ a, PresOK (f a)) (l : List α) :
+    PresOK (pluralOp m chk f l) := by
+  intro s h
+  have h0 := inval_cacheOK m h
+  unfold pluralOp
+  simp only
+  split
+  · simpa [fail] using h0
+  · exact foldOps_presOK f hf l _ h0
+
+theorem updateParameters_presOK (hm : Gen.invalidates .update_parameter = true) (l) :
+    PresOK (updateParameters l) :=
+  pluralOp_presOK _ _ _ (fun _ _ _ => Or.inl (updateParameter_none hm _ _ _)) l
+
+theorem scaleParameters_presOK (hm : Gen.invalidates .update_parameter = true) (l) :
+    PresOK (scaleParameters l) := by
+  intro s h
+  have h0 := inval_cacheOK .scale_parameters h
+  unfold scaleParameters
+  simp only
+  split
+  · have h1 := scaledValues_cacheOK l h0
+    split
+    · rename_i s1 e heq; rw [heq] at h1; exact h1
+    · rename_i s1 vs heq
+      rw [heq] at h1
+      exact updateParameters_presOK hm vs s1 h1
+  · exact foldOps_presOK _ (fun a => scaleParameter_presOK hm a.1 a.2) l _ h0
 
 theorem makeVariableStatic_presOK (hm : Gen.invalidates .remove_variable = true) (n v) :
     PresOK (makeVariableStatic n v) := by
@@ -498,30 +548,21 @@ theorem step_cacheOK (s : State) (op : Op) (h : CacheOK s) : CacheOK (step s op)
   | make_parameter_dynamic n iv st =>
     exact Or.inl (makeParameterDynamic_none (T .make_parameter_dynamic rfl) _ _ _ _)
   | add_parameters l =>
-    exact foldOps_presOK _ (fun a s _ => Or.inl (addParameter_none (T .add_parameter rfl) _ _ _)) l _
-      (inval_cacheOK _ h)
+    exact pluralOp_presOK _ _ _ (fun a s _ => Or.inl (addParameter_none (T .add_parameter rfl) _ _ _)) l s h
   | remove_parameters l =>
-    exact foldOps_presOK _ (fun a s _ => Or.inl (removeParameter_none (T .remove_parameter rfl) _ _)) l _
-      (inval_cacheOK _ h)
-  | update_parameters l =>
-    exact foldOps_presOK _ (fun a s _ => Or.inl (updateParameter_none (T .update_parameter rfl) _ _ _)) l _
-      (inval_cacheOK _ h)
-  | scale_parameters l =>
-    exact foldOps_presOK _ (fun a => scaleParameter_presOK (T .update_parameter rfl) a.1 a.2) l _
-      (inval_cacheOK _ h)
+    exact pluralOp_presOK _ _ _ (fun a s _ => Or.inl (removeParameter_none (T .remove_parameter rfl) _ _)) l s h
+  | update_parameters l => exact updateParameters_presOK (T .update_parameter rfl) l s h
+  | scale_parameters l => exact scaleParameters_presOK (T .update_parameter rfl) l s h
   | add_variable n v => exact Or.inl (addVariable_none (T .add_variable rfl) _ _ _)
   | remove_variable n rs => exact Or.inl (removeVariable_none (T .remove_variable rfl) _ _ _)
   | update_variable n v => exact Or.inl (updateVariable_none (T .update_variable rfl) _ _ _)
   | make_variable_static n v => exact makeVariableStatic_presOK (T .remove_variable rfl) n v s h
   | add_variables l =>
-    exact foldOps_presOK _ (fun a s _ => Or.inl (addVariable_none (T .add_variable rfl) _ _ _)) l _
-      (inval_cacheOK _ h)
+    exact pluralOp_presOK _ _ _ (fun a s _ => Or.inl (addVariable_none (T .add_variable rfl) _ _ _)) l s h
   | remove_variables l rs =>
-    exact foldOps_presOK _ (fun a s _ => Or.inl (removeVariable_none (T .remove_variable rfl) _ _ _)) l _
-      (inval_cacheOK _ h)
+    exact pluralOp_presOK _ _ _ (fun a s _ => Or.inl (removeVariable_none (T .remove_variable rfl) _ _ _)) l s h
   | update_variables l =>
-    exact foldOps_presOK _ (fun a s _ => Or.inl (updateVariable_none (T .update_variable rfl) _ _ _)) l _
-      (inval_cacheOK _ h)
+    exact pluralOp_presOK _ _ _ (fun a s _ => Or.inl (updateVariable_none (T .update_variable rfl) _ _ _)) l s h
   | add_derived n f => exact Or.inl (addDerived_none (T .add_derived rfl) _ _ _)
   | update_derived n fn args => exact Or.inl (updateDerived_none (T .update_derived rfl) _ _ _ _)
   | remove_derived n => exact Or.inl (removeDerived_none (T .remove_derived rfl) _ _)
